@@ -667,7 +667,9 @@ func checkC14(res *Result) {
 }
 
 // parseCallbackLoop recognises
-//   for _, i := range this.callbacks { if fn, ok := i.(F); ok { return fn(ctx, v) } }
+//
+//	for _, i := range this.callbacks { if fn, ok := i.(F); ok { return fn(ctx, v) } }
+//
 // and returns F's parameter interface.
 func parseCallbackLoop(info *types.Info, st ast.Stmt, vObj types.Object, e *dispatchEntry) *types.Named {
 	rs, ok := st.(*ast.RangeStmt)
